@@ -16,21 +16,24 @@ def sh(cmd, cwd=wt, timeout=900):
 def clean():
     sh("git checkout -- . && git clean -fdq")
 demo = [f for f in os.listdir(out) if f.startswith(f"demo{k}")][0]
-m = re.search(r"cp OUT/\S+ WT/(\S+)", meta["demo_cmd"])
+m = re.search(r"cp OUT/\S+ (?:WT/)?(\S+)", meta["demo_cmd"])
 dest = m.group(1)
 pkg = "./" + os.path.dirname(dest)
-run = re.search(r"-run '([^']+)'", meta["demo_cmd"]).group(1)
+run = re.search(r"-run '?([^' ]+)'?", meta["demo_cmd"]).group(1)
 tags = "-tags integration " if "integration" in meta["demo_cmd"] else ""
 if "-race" in meta["demo_cmd"]:
     tags += "-race "
 stable = json.load(open("/var/tmp/vt/stable.json"))
 res = {}
 clean()
+os.makedirs(os.path.dirname(f"{wt}/{dest}"), exist_ok=True)
 shutil.copy(f"{out}/{demo}", f"{wt}/{dest}")
 rc, o = sh(f"go test {tags}-count=1 -timeout 300s -run '{run}' {pkg}")
 res["demo_on_clean_tree"] = "pass" if rc == 0 else "FAIL"
 rc, o = sh(f"git apply {out}/patch{k}.diff")
 assert rc == 0, o
+os.makedirs(os.path.dirname(f"{wt}/{dest}"), exist_ok=True)
+shutil.copy(f"{out}/{demo}", f"{wt}/{dest}")
 rc, o = sh("go build ./... && go vet " + pkg)
 res["builds_with_patch"] = rc == 0
 pk = os.path.dirname(meta["files"][0])
